@@ -60,9 +60,13 @@ inductive Outcome
   | refused                      -- FileExistsError
 deriving Repr, DecidableEq
 
-/-- `to_csv(output_path, force)`: `tmp` is the path of the scratch file the call creates and removes -/
-def toCsvFS (fs : FS) (output tmp : String) (sizeMB : Nat) (force : Bool) : FS × Outcome :=
-  if sizeMB > 15 && !force then (fs, .skipped)
+/-- the size above which an export must be forced: `itemsize * size / 1024**2 > 15`, in bytes -/
+def limitBytes : Nat := 15 * 1048576
+
+/-- `to_csv(output_path, force)`: `tmp` is the path of the scratch file the call creates and removes;
+    `bytes` = `h5_main.dtype.itemsize * h5_main.size` -/
+def toCsvFS (fs : FS) (output tmp : String) (bytes : Nat) (force : Bool) : FS × Outcome :=
+  if bytes > limitBytes && !force then (fs, .skipped)
   else if fs.files.contains output && !force then (fs, .refused)
   else
     -- existing output removed when forced; scratch file written, merged into the output, scratch removed
